@@ -550,9 +550,11 @@ func sequentialDecode(proto string, replica *flowCache, addr []byte, data []byte
 			if mperr != nil {
 				return o, mperr
 			}
-			if merr == nil {
-				o.published, o.payload = true, string(js)
+			if merr != nil {
+				// the worker drops a message it can not encode: a datagram with records and no message
+				return o, fmt.Errorf("a datagram that yields %d records can not be encoded (the worker publishes nothing for it): %v", len(res.Recs), merr)
 			}
+			o.published, o.payload = true, string(js)
 		}
 	case "nf5":
 		m, derr := netflow5.NewDecoder(wire.ExactIP(addr), data).Decode()
